@@ -231,6 +231,7 @@ func (Sim) Run(raw json.RawMessage, prop string, keep bool) (res simfw.Result) {
 	// ---- run the loader ------------------------------------------------------
 	delivered := map[string]bool{} // locations whose references are known to the loader so far
 	readSoFar := map[string]bool{} // locations the loader has asked for so far in this run
+	okRead := map[string]bool{}    // locations read successfully so far in this run (a later load may legitimately reuse that content)
 	mkLoader := func() *openapi3.Loader {
 		l := openapi3.NewLoader()
 		l.IsExternalRefsAllowed = s.External
@@ -308,7 +309,6 @@ func (Sim) Run(raw json.RawMessage, prop string, keep bool) (res simfw.Result) {
 		if !rootHasLocation || strings.HasPrefix(s.RootForm, "data_path") {
 			delivered["<root>"] = true // the root's content was handed to the loader, not read
 		}
-		okRead := map[string]bool{}
 		failedRead := map[string]string{}
 		for _, ev := range st.Events[first:] {
 			readSoFar[ev.Loc] = true
